@@ -656,6 +656,46 @@ static void run_mat4(const vf::Args &args, Report &rep)
         CHK12("mmult_avx", Goldilocks::mmult_avx(b0, b1, b2, (El *)(Mu + off)));
         CHK12("mmult_avx_a", Goldilocks::mmult_avx_a(b0, b1, b2, (El *)Ma));
         if (m8) CHK12("mmult_avx_8", Goldilocks::mmult_avx_8(b0, b1, b2, (El *)(Mu + off)));
+        if (pass == 0 && t % 4 == 1)
+        {
+            // coefficient arrays of exactly the documented extent (12 / 48 / 144 elements) ending at an unmapped page (malloc redzone under ASan)
+            const char *sfx = ":coefficients-of-exact-extent";
+            auto with_exact = [&](size_t n, auto fn) {
+#if defined(__SANITIZE_ADDRESS__)
+                uint64_t *q = (uint64_t *)aligned_alloc(32, n * 8);
+                memcpy(q, coef, n * 8);
+                fn((El *)q);
+                free(q);
+#else
+                static arena::GuardBuf<uint64_t> gb(256, true, 32);
+                uint64_t *q = gb.p + gb.n - n;
+                memcpy(q, coef, n * 8);
+                fn((El *)q);
+#endif
+            };
+            o_spmv(e4, sc, coef);
+            with_exact(12, [&](El *m) {
+                CHK4("spmv_avx_4x12", Goldilocks::spmv_avx_4x12(c, a0, a1, a2, m));
+                CHK4("spmv_avx_4x12_a", Goldilocks::spmv_avx_4x12_a(c, a0, a1, a2, m));
+                if (m8) CHK4("spmv_avx_4x12_8", Goldilocks::spmv_avx_4x12_8(c, a0, a1, a2, m));
+                El d = Goldilocks::dot_avx(a0, a1, a2, m), d2 = Goldilocks::dot_avx_a(a0, a1, a2, m);
+                uint64_t edot2 = o_dot(sc, coef);
+                if (orc::canon(d.fe) != edot2) mat_fail(rep, prop, std::string("dot_avx") + sfx, MATFAM[fam], 0, 0, d.fe, edot2, s, 12, coef, 12);
+                if (orc::canon(d2.fe) != edot2) mat_fail(rep, prop, std::string("dot_avx_a") + sfx, MATFAM[fam], 0, 0, d2.fe, edot2, s, 12, coef, 12);
+            });
+            o_mmult_rows(e4, 4, sc, coef);
+            with_exact(48, [&](El *m) {
+                CHK4("mmult_avx_4x12", Goldilocks::mmult_avx_4x12(c, a0, a1, a2, m));
+                CHK4("mmult_avx_4x12_a", Goldilocks::mmult_avx_4x12_a(c, a0, a1, a2, m));
+                if (m8) CHK4("mmult_avx_4x12_8", Goldilocks::mmult_avx_4x12_8(c, a0, a1, a2, m));
+            });
+            with_exact(144, [&](El *m) {
+                CHK12("mmult_avx", Goldilocks::mmult_avx(b0, b1, b2, m));
+                CHK12("mmult_avx_a", Goldilocks::mmult_avx_a(b0, b1, b2, m));
+                if (m8) CHK12("mmult_avx_8", Goldilocks::mmult_avx_8(b0, b1, b2, m));
+            });
+            rep.cls("forms:coefficient_array_of_exact_extent");
+        }
         } // pass
         rep.cls(std::string("matfam:") + MATFAM[fam] + (m8 ? ":8bit" : ":full"));
         rep.nontrivial(vf::mix64(s[0] ^ s[5], coef[0] ^ coef[13] ^ t));
@@ -814,6 +854,46 @@ static void run_mat8(const vf::Args &args, Report &rep)
     } while (0)
         CHK24("mmult_avx512", Goldilocks::mmult_avx512(b0, b1, b2, (El *)coef));
         if (m8) CHK24("mmult_avx512_8", Goldilocks::mmult_avx512_8(b0, b1, b2, (El *)coef));
+        if (pass == 0 && t % 4 == 1)
+        {
+            const char *sfx = ":coefficients-of-exact-extent";
+            auto with_exact = [&](size_t n, auto fn) {
+#if defined(__SANITIZE_ADDRESS__)
+                uint64_t *q = (uint64_t *)aligned_alloc(32, n * 8);
+                memcpy(q, coef, n * 8);
+                fn((El *)q);
+                free(q);
+#else
+                static arena::GuardBuf<uint64_t> gb(256, true, 32);
+                uint64_t *q = gb.p + gb.n - n;
+                memcpy(q, coef, n * 8);
+                fn((El *)q);
+#endif
+            };
+            for (int st = 0; st < 2; st++) o_spmv(e[st], sc[st], coef);
+            with_exact(12, [&](El *m) {
+                CHK8("spmv_avx512_4x12", Goldilocks::spmv_avx512_4x12(c, a0, a1, a2, m), 12);
+                if (m8) CHK8("spmv_avx512_4x12_8", Goldilocks::spmv_avx512_4x12_8(c, a0, a1, a2, m), 12);
+                El d[2];
+                Goldilocks::dot_avx512(d, a0, a1, a2, m);
+                for (int st = 0; st < 2; st++)
+                {
+                    uint64_t ed = o_dot(sc[st], coef);
+                    if (orc::canon(d[st].fe) != ed) mat_fail(rep, prop, std::string("dot_avx512") + sfx, MATFAM[fam], st, 0, d[st].fe, ed, s + 12 * st, 12, coef, 12);
+                }
+            });
+            for (int st = 0; st < 2; st++) o_mmult_rows(e[st], 4, sc[st], coef);
+            with_exact(48, [&](El *m) {
+                CHK8("mmult_avx512_4x12", Goldilocks::mmult_avx512_4x12(c, a0, a1, a2, m), 48);
+                if (m8) CHK8("mmult_avx512_4x12_8", Goldilocks::mmult_avx512_4x12_8(c, a0, a1, a2, m), 48);
+            });
+            for (int st = 0; st < 2; st++) o_mmult_rows(e[st], 12, sc[st], coef);
+            with_exact(144, [&](El *m) {
+                CHK24("mmult_avx512", Goldilocks::mmult_avx512(b0, b1, b2, m));
+                if (m8) CHK24("mmult_avx512_8", Goldilocks::mmult_avx512_8(b0, b1, b2, m));
+            });
+            rep.cls("forms:coefficient_array_of_exact_extent");
+        }
         } // pass
         rep.cls(std::string("matfam:") + MATFAM[fam] + (m8 ? ":8bit" : ":full"));
         rep.nontrivial(vf::mix64(s[0] ^ s[17], coef[0] ^ coef[13] ^ t));
